@@ -283,6 +283,7 @@ type Tx struct {
 	DescClass string     `json:"descclass,omitempty"`
 	HC        *Comment   `json:"hc,omitempty"`
 	HCSep     string     `json:"hcsep,omitempty"`
+	DSep      string     `json:"dsep,omitempty"` // blanks before the description ("" = one blank); may hold a non-ASCII blank after the first
 	Body      []BodyItem `json:"body,omitempty"`
 	Trail     string     `json:"trail,omitempty"` // blanks at the end of the header line
 }
@@ -690,7 +691,15 @@ func renderTx(r *Rendered, tx *Tx, ei int, line *int, emit func(*lineBuf, LineIn
 		feats["tx.code"] = true
 	}
 	if !tx.NoDesc {
-		b.w(" ")
+		if tx.DSep != "" {
+			b.w(tx.DSep)
+			feats["descr.lead-blanks"] = true
+			if asciiOnlyStr(tx.DSep) != tx.DSep {
+				feats["descr.lead-unicode-blank"] = true
+			}
+		} else {
+			b.w(" ")
+		}
 		if tx.HasNote {
 			b.span("payee", tx.Payee)
 			b.w(" ")
@@ -832,4 +841,14 @@ func (r *Rendered) SpansOn(line int, kind string) []Span {
 		}
 	}
 	return out
+}
+
+func asciiOnlyStr(s string) string {
+	var sb strings.Builder
+	for _, r := range s {
+		if r < 0x80 {
+			sb.WriteRune(r)
+		}
+	}
+	return sb.String()
 }
